@@ -192,6 +192,8 @@ from . import casts
 
 from . import removals
 
+from . import mustcall
+
 OBLIGATIONS = [
     ('C09.O1', 'examine before confirm', 'in advance_frame_after_poll no checksum send/compare site is reachable after a call that may reach '
      'set_last_confirmed_frame; both run on every advance while detection is on.', o1),
@@ -204,4 +206,5 @@ OBLIGATIONS = [
     ('C09.I', 'initial state', 'every constructor gives the fields this property\'s rules interpret (NULL_FRAME = none / nothing yet, 0 = first frame, latches open, typestate start) the value listed in tables/initial_state.json; every field compared with NULL_FRAME anywhere is listed; see rules/initial.py', initial.rule_for('C09')),
     ('C09.C', 'lossy integer casts', 'every sign-changing cast (signed -> unsigned; NULL_FRAME is -1) and every narrowing cast to < 32 bits or from 128 bits in the crate is in range by a dominating guard, by the shape of its operand, or listed with a reason in tables/casts.json; see rules/casts.py', casts.rule),
     ('C09.R', 'who may remove', 'every call that takes elements out of a collection this property\'s rules rely on (keyed removal from a map, or bulk / positional removal) is one of the reviewed sites in tables/removals.json; a lookup turned into a removal, a second prune, a clear on another path is reported; see rules/removals.py', removals.rule_for('C09')),
+    ('C09.M', 'must-call floor', 'the calls listed for this property in tables/must_call.json are made on every path from the entry of their function to a normal return (interprocedural must-call): a new early return, fast path or extra condition in front of one of them is reported; see rules/mustcall.py', mustcall.rule_for('C09')),
 ]
